@@ -226,8 +226,17 @@ func (m *Machine) callSSA2(caller *frame, pos token.Pos, fn *ssa.Function, args 
 			return in(m, caller, fn, args)
 		}
 	}
-	if fn.Synthetic == "package initializer" && !m.W.wantInit(fn.Pkg) {
-		return nil
+	if fn.Synthetic == "package initializer" {
+		if !m.W.wantInit(fn.Pkg) {
+			return nil
+		}
+		if !m.embedsDone[fn.Pkg] {
+			if m.embedsDone == nil {
+				m.embedsDone = map[*ssa.Package]bool{}
+			}
+			m.embedsDone[fn.Pkg] = true
+			m.loadEmbeds(fn.Pkg)
+		}
 	}
 	if fn.Blocks == nil {
 		m.unsupported("no code for function %s", fn.String())
@@ -489,7 +498,7 @@ func (m *Machine) visit(fr *frame, instr ssa.Instruction) bool {
 	case *ssa.RunDefers:
 		fr.runDefers()
 	case *ssa.Panic:
-		v := fr.get(in.X)
+		v := m.panicValue(fr.get(in.X))
 		panic(&GoPanic{V: v, Site: "panic@" + fr.fn.String()})
 	case *ssa.Send, *ssa.Select, *ssa.MakeChan:
 		m.unsupported("channel operation in %s", fr.fn)
@@ -532,12 +541,12 @@ func (m *Machine) visit(fr *frame, instr ssa.Instruction) bool {
 			*cur = *p
 		}
 	case *ssa.MakeSlice:
-		ln := m.concreteInt(fr, fr.get(in.Len), "make-len")
+		ln := m.makeLen(fr, fr.get(in.Len), in.Len.Type(), "make-len")
 		cp := ln
 		if in.Cap != nil {
-			cp = m.concreteInt(fr, fr.get(in.Cap), "make-cap")
+			cp = m.makeLen(fr, fr.get(in.Cap), in.Cap.Type(), "make-cap")
 		}
-		if ln < 0 || cp < ln || cp > 1<<26 {
+		if ln < 0 || cp < ln {
 			m.rtPanic(fr, "makeslice-len-out-of-range")
 		}
 		et := in.Type().Underlying().(*types.Slice).Elem()
@@ -653,5 +662,71 @@ func (m *Machine) concretize(fr *frame, t T, what string) int {
 		return -1
 	}
 	m.unsupported("%s: symbolic integer outside 0..64 in %s", what, fr.fn)
+	return 0
+}
+
+// panicValue implements Go 1.21+ semantics of panic(nil): the panic value is a
+// *runtime.PanicNilError, so recover() returns non-nil.
+func (m *Machine) panicValue(v Value) Value {
+	iv, ok := v.(Iface)
+	if !ok || iv.T != nil {
+		return v
+	}
+	if rt := m.W.SSAPkgs["runtime"]; rt != nil {
+		if tn := rt.Type("PanicNilError"); tn != nil {
+			p := new(Value)
+			*p = m.zero(tn.Type())
+			return Iface{T: types.NewPointer(tn.Type()), V: Ptr(p)}
+		}
+	}
+	return Iface{T: m.W.runtimeErrorType(), V: Str{S: "panic called with nil argument (obsolete and disabled by GODEBUG=panicnil=0)"}}
+}
+
+// maxMake bounds allocations the executor is willing to model; a larger
+// CONCRETE size is reported as unsupported (not as a Go panic: the real
+// runtime may well satisfy it).
+const maxMake = 1 << 24
+
+// makeLen resolves the length/capacity operand of make: a symbolic value is
+// first tested against "negative or too large for any allocation" (the Go
+// run-time panic makeslice: len out of range), then enumerated in 0..64.
+func (m *Machine) makeLen(fr *frame, v Value, vt types.Type, what string) int {
+	t, ok := v.(T)
+	if !ok {
+		m.unsupported("%s: non-integer %s", what, describe(v))
+	}
+	if t.IsConst() {
+		n := t.SignedVal()
+		if !isSigned(vt) && t.W == 64 && n < 0 {
+			m.rtPanic(fr, "makeslice-len-out-of-range")
+		}
+		if n < 0 || n > 1<<47 {
+			m.rtPanic(fr, "makeslice-len-out-of-range")
+		}
+		if n > maxMake {
+			m.unsupported("%s: allocation of %d elements in %s", what, n, fr.fn)
+		}
+		return int(n)
+	}
+	F := m.F
+	w := t
+	if w.W < 64 {
+		if isSigned(vt) {
+			w = F.Sext(w, 64)
+		} else {
+			w = F.Zext(w, 64)
+		}
+	}
+	// out of range for every element size: negative, or above 2^47 elements
+	bad := F.Or(F.Slt(w, F.Const(64, 0)), F.Slt(F.Const(64, 1<<47), w))
+	if m.Decide(bad) {
+		m.rtPanic(fr, "makeslice-len-out-of-range")
+	}
+	for i := 0; i <= 64; i++ {
+		if m.Decide(F.Eq(w, F.Const(64, uint64(i)))) {
+			return i
+		}
+	}
+	m.unsupported("%s: symbolic allocation size above 64 in %s", what, fr.fn)
 	return 0
 }
